@@ -7,3 +7,5 @@ import LettreVerif.Props.C04
 #print axioms LV.C04.xtext_valid
 #print axioms LV.C04.ehlo_domain_crlf_witness
 #print axioms LV.C04.param_keyword_crlf_witness
+#print axioms LV.C04.single_line_iff
+#print axioms LV.C04.command_lines_single
